@@ -96,10 +96,10 @@ func writeManifest(path string) error {
 			"add_only":         true,
 		},
 		"engines": []map[string]any{{
-			"name":             "verifcheck",
-			"path":             "cmd/verifcheck",
+			"name":              "verifcheck",
+			"path":              "cmd/verifcheck",
 			"serves_properties": served,
-			"kind_free_text":   "repository-specific static analyser (go/packages + go/types + go/ssa + CFG reachability + table/sibling agreement + asm text scan); nothing in /repo is executed",
+			"kind_free_text":    "repository-specific static analyser (go/packages + go/types + go/ssa + CFG reachability + table/sibling agreement + asm text scan); nothing in /repo is executed",
 		}},
 		"checks":         checks,
 		"not_applicable": na,
